@@ -152,6 +152,11 @@ def family():
               [{'t': 'DeleteField', 'model': 'Category', 'field': 'twin'}],
               [{'t': 'DeleteModel', 'model': 'Item'}]):
         out.append((spec_l, q))
+    # an app installed under a custom label goes back to the label it used to have (its own legacy label)
+    spec_own = copy.deepcopy(spec)
+    spec_own['apps'][0]['legacy'] = 'core'
+    out.append((spec_own, [{'t': 'RenameAppLabel', 'old': 'vapp', 'new': 'core', 'legacy': None, 'models': None}]))
+    out.append((spec_own, [{'t': 'RenameAppLabel', 'old': 'vapp', 'new': 'core', 'legacy': 'core', 'models': ['Category']}]))
     return out
 
 
